@@ -32,6 +32,8 @@ type c08Case struct {
 	// FullUntil: 0: the incremental phase from the start; k>0: the full phase (WaitFull open) lasts
 	// until just before stimulus k (k > steps: until the settle phase)
 	FullUntil int `json:"full_phase_until_step,omitempty"`
+	// Refusals: the dial answers include "accepted, but the PSYNC is answered with -LOADING"
+	Refusals bool `json:"psync_refusals,omitempty"`
 }
 
 var c08Stream []byte
@@ -109,19 +111,40 @@ func c08Run(t *testing.T, c c08Case, ch *seqx.Chooser) (kind, what string, trace
 				sent += k
 				return b
 			}
+			// a master that is not ready answers the reconnect PSYNC with an error (once per execution):
+			// the tool waits and dials again, and must ask for the same position
+			refuseNext, refusals := false, 0
+			refusedPsync := map[int]bool{}
+			m.PsyncReply = func(p msource.Psync) string {
+				if refuseNext {
+					refuseNext = false
+					refusedPsync[len(sentAtPsync)] = true
+					return "-LOADING Redis is loading the dataset in memory"
+				}
+				return "+CONTINUE"
+			}
 			hook.SetDialHook(func(network, addr string) (net.Conn, error, bool) {
 				dials++
-				d := ch.Choose(3)
+				nd := 3
+				if c.Refusals && refusals == 0 {
+					nd = 4
+				}
+				d := ch.Choose(nd)
 				if d == 1 {
 					trace = append(trace, "dial-refused")
 					return nil, errors.New("connection refused"), true
+				}
+				if d == 3 {
+					refuseNext = true
+					refusals++
+					trace = append(trace, "dial-ok(PSYNC answered -LOADING)")
 				}
 				piggyback = d == 2
 				cc, sc := memconn.Pair(fmt.Sprintf("source%d", dials))
 				go m.Serve(sc)
 				if piggyback {
 					trace = append(trace, "dial-ok(+CONTINUE and 7 stream bytes in one write)")
-				} else {
+				} else if d != 3 {
 					trace = append(trace, "dial-ok")
 				}
 				return cc, nil, true
@@ -191,6 +214,13 @@ func c08Run(t *testing.T, c c08Case, ch *seqx.Chooser) (kind, what string, trace
 					if p.Offset != want || p.RunID != "run-1" {
 						bad("psync-offset", fmt.Sprintf("reconnect sends PSYNC %s %d, expected PSYNC run-1 %d (start %d + %d bytes received + 1)", p.RunID, p.Offset, want, c.Start, sentThen))
 					}
+					if refusedPsync[seenPsyncs+i] {
+						// the master said no: it closes the link, nothing flows on it
+						if cn := m.Conn(p.Conn); cn != nil {
+							cn.(*memconn.Conn).Cut()
+						}
+						continue
+					}
 					connected = true
 				}
 				seenPsyncs = len(ps)
@@ -241,6 +271,12 @@ func c08Run(t *testing.T, c c08Case, ch *seqx.Chooser) (kind, what string, trace
 				endFull()
 			}
 			for i := 0; i < 3 && kind == ""; i++ {
+				time.Sleep(time.Second)
+				synctest.Wait()
+				check(connected)
+			}
+			// after a refused PSYNC the tool waits 30 s before it dials again
+			for i := 0; i < 45 && kind == "" && !connected && refusals > 0; i++ {
 				time.Sleep(time.Second)
 				synctest.Wait()
 				check(connected)
@@ -313,20 +349,29 @@ func TestVerif_C08(t *testing.T) {
 	type c08Cfg struct {
 		start     int64
 		fullUntil int
+		refusals  bool
 	}
 	var cfgs []c08Cfg
 	for _, start := range starts {
-		cfgs = append(cfgs, c08Cfg{start, 0})
+		cfgs = append(cfgs, c08Cfg{start, 0, false})
 	}
 	// the full phase is still running for the first stimuli / for all of them
-	cfgs = append(cfgs, c08Cfg{1 << 31, 3}, c08Cfg{5000000000, 99})
+	cfgs = append(cfgs, c08Cfg{1 << 31, 3, false}, c08Cfg{5000000000, 99, false})
+	// reconnects whose PSYNC is refused once (-LOADING): shorter stimulus sequences, the wait is long
+	cfgs = append(cfgs, c08Cfg{3, 0, true})
 	for si, cf := range cfgs {
 		start := cf.start
 		st := steps
 		if si > 0 && !ev.Thorough() {
 			st = 4
 		}
-		c := c08Case{Start: start, Steps: st, FullUntil: cf.fullUntil}
+		if cf.refusals {
+			st = 3
+			if ev.Thorough() {
+				st = 5
+			}
+		}
+		c := c08Case{Start: start, Steps: st, FullUntil: cf.fullUntil, Refusals: cf.refusals}
 		opt := seqx.Options{MaxDev: dev, ShardDepth: 2, Mine: func(p []int) bool {
 			h := int64(0)
 			for _, v := range p {
